@@ -662,7 +662,7 @@ async fn process_task_results(
 }
 //!end
 
-// ASSUMED (repo function, not verified here; Compressor::register routing is not yet under contract): one client pair per target
+// ASSUMED here (initialize_compressor is under contract in unit compress: the i-th pair routes into the i-th target's two archives): one client pair per target
 #[verifier::external_body]
 fn initialize_compressor(plan_targets: &[PlanTarget], num_threads: usize) -> (r: Result<(log::Compressor, Vec<(log::CompressorClient, log::CompressorClient)>), MonorailError>)
     ensures r matches Ok(p) ==> p.1@.len() == plan_targets@.len(), r matches Err(e) ==> !from_listener(e)
